@@ -125,7 +125,7 @@ def run_spec(args):
     out = {"name": spec.name, "desc": spec.desc, "bounds": dict(spec.bounds, unwind=spec.unwind), "status": "error"}
     t0 = time.time()
     try:
-        src = srcdefs.Sources(src_path)
+        src = srcdefs.Sources(src_path, extra_roots=spec.cfg.get("extra_src", []))
         cfg = dict(noops=[r"metrics", r"tracing", r"ExecuteMetricsCollector", r"Histogram"], cap=3)
         cfg.update(spec.cfg)
         tr = translate.Translator(open(mir_path).read(), src, cfg)
